@@ -134,7 +134,7 @@ def build_repo_native():
 class Job:
     def __init__(self, name, harness, defines=None, entry="harness_main", max_paths=200000, max_steps=5000000,
                  timeout=600, query_timeout_ms=30000, extra_bc=(), uf_muldiv=False, allow_partial=False,
-                 min_completed=1, engine="symx", tag=None, samples=6, max_violations=40, render_classes=0, false_first=False):
+                 min_completed=1, engine="symx", tag=None, samples=6, max_violations=40, render_classes=0, false_first=False, merge_ptrs=False, support_bits=0):
         self.name = name
         self.harness = harness
         self.defines = dict(defines or {})
@@ -153,6 +153,8 @@ class Job:
         self.max_violations = max_violations
         self.render_classes = render_classes
         self.false_first = false_first
+        self.merge_ptrs = merge_ptrs
+        self.support_bits = support_bits
 
     def dflags(self):
         out = []
@@ -195,6 +197,12 @@ def run_symx(job, seed=0, inputs=None):
         cmd.append("--uf-muldiv")
     if job.false_first:
         cmd.append("--false-first")
+    if job.merge_ptrs:
+        cmd.append("--merge-ptrs")
+    if job.allow_partial:
+        cmd.append("--tolerate-unknown")
+    if job.support_bits:
+        cmd += ["--support-bits", str(job.support_bits)]
     if job.render_classes:
         cmd += ["--render-classes", str(job.render_classes)]
     if inputs is not None:
@@ -243,13 +251,15 @@ def replay(job, viol, exe=None):
             f.write("%s\n" % i["value"])
     rundir = os.path.join(d, "run_" + h)
     os.makedirs(rundir, exist_ok=True)
-    env = dict(os.environ, SYMX_INPUTS=inp, ASAN_OPTIONS="detect_leaks=0:halt_on_error=1:abort_on_error=0", UBSAN_OPTIONS="print_stacktrace=0:halt_on_error=0")
+    env = dict(os.environ, SYMX_INPUTS=inp, ASAN_OPTIONS="detect_leaks=0:halt_on_error=1:abort_on_error=0:hard_rss_limit_mb=6000", UBSAN_OPTIONS="print_stacktrace=0:halt_on_error=0")
     rc, out, wall = run([exe], timeout=10 if viol["kind"] == "budget" else 30, cwd=rundir, env=env)
     shutil.rmtree(rundir, ignore_errors=True)
     k = viol["kind"]
     rep = False
     if k == "assert":
         rep = ("SYMX-ASSERT-FAIL: " + viol["msg"]) in out
+    elif k == "hugealloc":
+        rep = rc in (-9, -6, 134, -11, 139) or "bad_alloc" in out or "AddressSanitizer" in out
     elif k in MEM_KINDS or k == "uninit":
         rep = "AddressSanitizer" in out or "runtime error" in out or rc in (-11, -6, -7, 139, 134)
     elif k in ("div0", "divovf"):
@@ -433,7 +443,7 @@ def write_evidence(prop, tier, seed, results, wall, level_text, assumptions, nva
             covers[c] = covers.get(c, 0) + n
         jobs.append({"job": j.name, "harness": j.harness, "defines": j.defines, "paths_completed": res["completed"], "paths_infeasible": res["infeasible"],
                      "forks": res["forks"], "queries": res["queries"], "solver_s": round(res["solver_s"], 2), "wall_s": round(res["wall_s"], 2),
-                     "pending": res["pending"], "violations": len(res["violations"]), "bounds": {"render_digit_count_classes": res.get("render_classes", 0), "pruned_render_classes": res.get("pruned_render_classes", 0), "max_paths": res["max_paths"], "max_steps_per_path": res["max_steps"], "query_timeout_ms": res["query_timeout_ms"], "time_budget_s": j.timeout},
+                     "pending": res["pending"], "violations": len(res["violations"]), "solver_unknown_paths": res.get("solver_unknown_paths", 0), "bounds": {"render_digit_count_classes": res.get("render_classes", 0), "pruned_render_classes": res.get("pruned_render_classes", 0), "max_paths": res["max_paths"], "max_steps_per_path": res["max_steps"], "query_timeout_ms": res["query_timeout_ms"], "time_budget_s": j.timeout},
                      "partial_allowed": j.allow_partial})
         for s in res["samples"][:2]:
             samples.append({"job": j.name, "inputs": s["inputs"], "observed": s["notes"]})
